@@ -308,7 +308,7 @@ impl Sched {
             // a hand-off of the critical mutex to a woken waiter takes microseconds; if it has not happened after seconds of
             // wall-clock time the wake-up was never delivered (e.g. notify_all is not really called where the hook says so)
             if g.awaiting {
-                match g.awaiting_since { None => g.awaiting_since = Some(std::time::Instant::now()), Some(t) => if t.elapsed().as_secs_f64() > 6.0 && g.fatal.is_none() { self.fatal(&mut g, Fatal::LostHandoff); } }
+                match g.awaiting_since { None => g.awaiting_since = Some(std::time::Instant::now()), Some(t) => if t.elapsed().as_secs_f64() > 15.0 && g.fatal.is_none() { self.fatal(&mut g, Fatal::LostHandoff); } }
             } else { g.awaiting_since = None; }
         }
     }
